@@ -340,7 +340,7 @@ class Check:
                 return True, "up to date"
         with Lock(os.path.join(COQ, ".lock")):
             self.ensure_makefile()
-            rc, out = sh("timeout %d make -j%d %s 2>&1" % (timeout, os.cpu_count() or 4,
+            rc, out = sh("timeout -k 20 %d make -j%d %s 2>&1" % (timeout, os.cpu_count() or 4,
                                                           " ".join(targets)), cwd=COQ)
         return rc == 0, out
 
@@ -410,7 +410,7 @@ class Check:
         """Thorough tier: re-check the compiled property file and everything it depends on with the independent
         checker and record its context summary (axioms, type-in-type, unsafe fixpoints, assumed positivity)."""
         mod = "Rig.Props.%s" % self.pid
-        rc, out = sh("timeout %d coqchk -silent -o -R . Rig %s 2>&1" % (timeout, mod), cwd=COQ)
+        rc, out = sh("timeout -k 20 %d coqchk -silent -o -R . Rig %s 2>&1" % (timeout, mod), cwd=COQ)
         summ = out[out.find("CONTEXT SUMMARY"):] if "CONTEXT SUMMARY" in out else out[-1500:]
 
         def section(title):
@@ -452,7 +452,11 @@ class Check:
         path = os.path.join(self.work, name + ".v")
         with open(path, "w") as f:
             f.write(text)
-        rc, out = sh("ulimit -s unlimited 2>/dev/null; timeout %d coqc -R %s Rig -Q %s Cases %s 2>&1"
+        # -k: a coqc deep inside vm_compute can ignore SIGTERM for a long time; ulimit -v: an evaluation that runs away
+        # (e.g. a validator fed a pathological output of a changed implementation) dies at 24 GB instead of taking
+        # the machine with it -- either way the evaluation counts as failed (a broken obligation), never as a pass
+        rc, out = sh("ulimit -s unlimited 2>/dev/null; ulimit -v 25165824 2>/dev/null; "
+                     "timeout -k 20 %d coqc -R %s Rig -Q %s Cases %s 2>&1"
                      % (timeout, COQ, self.work, path), cwd=self.work)
         if rc != 0:
             out += "\n@@COQC-FAILED rc=%d" % rc
